@@ -25,11 +25,13 @@ func VH_C03_ContiguousFinalization() {
 		return
 	}
 	kinds := []int{evViewPC, evFinalization, evTimer}
-	if verifrt.Thorough() {
-		e.run(0, kinds, 2+verifrt.Choose("events-before-restart", 2))
-	} else {
-		e.run(0, []int{evViewPC}, 1)
-		if e.alive {
+	e.run(0, []int{evViewPC}, 1)
+	if e.alive {
+		if verifrt.Thorough() {
+			// (2-3 events of any of the three kinds did not finish within the thorough
+			// budget: 112729 paths in 1500 s; reduced)
+			e.run(0, kinds, 1)
+		} else {
 			e.run(0, []int{evFinalization, evTimer}, 1)
 		}
 	}
